@@ -67,7 +67,84 @@ def metadata_case(mp, mf, depth, deeper):
         bad.append(('C07.prefix_errors_agrees', f'{what}: prefix_errors gives {errs!r}; flatten_up_to {"succeeds" if up_to is True else "fails"}, is_prefix = {pref}'))
     return bad
 
+class MyOD(collections.OrderedDict): pass
+class MyDD(collections.defaultdict): pass
+class MyDict(dict): pass
+class MyList(list): pass
+class MyTuple(tuple): pass
+class MyDeque(collections.deque): pass
+SUBS = {'MyOD': lambda: MyOD(a=1, b=2), 'MyDD': lambda: MyDD(list, a=1, b=2), 'MyDict': lambda: MyDict(a=1, b=2),
+        'MyList': lambda: MyList([1, 2]), 'MyTuple': lambda: MyTuple((1, 2)), 'MyDeque': lambda: MyDeque([1, 2])}
+PROTOS = {'dict': lambda: {'a': 0, 'b': 0}, 'OrderedDict': lambda: collections.OrderedDict(a=0, b=0),
+          'defaultdict': lambda: collections.defaultdict(list, a=0, b=0), 'list': lambda: [0, 0], 'tuple': lambda: (0, 0),
+          'deque': lambda: collections.deque([0, 0])}
+
+def subclass_case(pname, sname, depth):
+    """an instance of a SUBCLASS of a built-in container is a leaf, so it never matches a node of the built-in type"""
+    bad = []
+    prefix, full = PROTOS[pname](), SUBS[sname]()
+    if depth:
+        prefix, full = [prefix, 0], [full, 9]
+    ts = optree.tree_structure(prefix)
+    what = f'prefix {prefix!r} vs full {full!r} (a {sname} instance against a {pname} node)'
+    try:
+        ts.flatten_up_to(full); up_to = 'succeeded'
+    except ValueError:
+        up_to = 'ValueError'
+    except Exception as e:
+        up_to = f'raised {type(e).__name__}'
+    pref = ts.is_prefix(optree.tree_structure(full))
+    try:
+        errs = optree.prefix_errors(prefix, full)
+    except Exception as e:
+        errs = f'raised {type(e).__name__}: {e}'
+    if up_to != 'ValueError':
+        bad.append(('C07.node_type_mismatch_raises_valueerror', f'{what}: flatten_up_to {up_to}; expected ValueError (is_prefix = {pref}, prefix_errors = {errs!r})'))
+    if pref is not False:
+        bad.append(('C07.node_type_mismatch_raises_valueerror', f'{what}: is_prefix = {pref}; expected False'))
+    if not isinstance(errs, list) or not errs:
+        bad.append(('C07.prefix_errors_agrees', f'{what}: prefix_errors gives {errs!r}; expected a non-empty list'))
+    return bad
+
+KEYSETS = {'mixed_extra': ({'a': 1, 'b': 2}, {'a': 1, 'b': 2, 3: 4}), 'mixed_missing': ({'a': 1, 3: 2, None: 5}, {'a': 1}),
+           'mixed_both': ({'a': 1, 2: 2}, {(1,): 1, 'z': 2, 5: 0}), 'unsortable': ({'a': 1}, {'a': 1, 1j: 2, None: 3}),
+           'same_size_other_keys': ({'a': 1, 1: 2}, {'a': 1, None: 2})}
+
+def keyset_case(name, kind):
+    """key-set mismatch with keys of several types: ValueError (never another exception), all three implementations agree"""
+    bad = []
+    pd, fd = KEYSETS[name]
+    mk = {'dict': dict, 'OrderedDict': collections.OrderedDict, 'defaultdict': lambda d: collections.defaultdict(list, d)}[kind]
+    prefix, full = mk(pd), mk(fd)
+    ts = optree.tree_structure(prefix)
+    what = f'prefix {prefix!r} vs full {full!r}'
+    try:
+        ts.flatten_up_to(full); up_to = 'succeeded'
+    except ValueError:
+        up_to = 'ValueError'
+    except Exception as e:
+        up_to = f'raised {type(e).__name__}: {e}'
+    try:
+        errs = optree.prefix_errors(prefix, full)
+    except Exception as e:
+        errs = f'raised {type(e).__name__}: {e}'
+    pref = ts.is_prefix(optree.tree_structure(full))
+    if up_to != 'ValueError':
+        bad.append(('C07.key_set_mismatch_raises_valueerror', f'{what}: flatten_up_to {up_to}; expected ValueError'))
+    if pref is not False:
+        bad.append(('C07.key_set_mismatch_raises_valueerror', f'{what}: is_prefix = {pref}; expected False'))
+    if not isinstance(errs, list) or not errs:
+        bad.append(('C07.prefix_errors_agrees', f'{what}: prefix_errors gives {errs!r}; expected a non-empty list'))
+    return bad
+
 def cases(tier):
+    for pname in PROTOS:
+        for sname in SUBS:
+            for depth in (0, 1):
+                yield ('subclass', pname, sname, depth)
+    for name in KEYSETS:
+        for kind in ('dict', 'OrderedDict', 'defaultdict'):
+            yield ('keyset', name, kind)
     for mp in METAS:
         for mf in METAS:
             for depth in (0, 1):
@@ -85,6 +162,10 @@ def check(spec):
     bad = []
     if spec[0] == 'metadata':
         return metadata_case(*spec[1:])
+    if spec[0] == 'subclass':
+        return subclass_case(*spec[1:])
+    if spec[0] == 'keyset':
+        return keyset_case(*spec[1:])
     if spec[0] == 'match':
         _, sname, cname, wrap = spec
         proto, cand = CANDIDATES[sname](), CANDIDATES[cname]()
